@@ -54,6 +54,7 @@ int run_value(const Args& a) {
                     ks[ki].writes_begun.fetch_add(1);
                     status s = yput(ses.tok, storage, keys[ki], v, false, aligns[tr.below(7)]);
                     ks[ki].writes_done.fetch_add(1);
+                    g_progress.fetch_add(1, std::memory_order_relaxed);
                     if (s != status::OK) { rep.violation("cvalue:put-status", "overwrite failed", JObj().str("got", st(s)).done()); }
                     if (tr.chance(1, 3)) { ses.reenter(); }
                 }
@@ -115,6 +116,7 @@ int run_value(const Args& a) {
                         }
                     }
                     reads.fetch_add(1, std::memory_order_relaxed);
+                    g_progress.fetch_add(1, std::memory_order_relaxed);
                     if (w1 > w0) {
                         overlapped.fetch_add(1, std::memory_order_relaxed);
                         uint64_t lg = len == 0 ? 0 : 63 - __builtin_clzll(len);
